@@ -1,22 +1,34 @@
-(* C13 — RubyGems versions order as Gem::Version does.                        INCOMPLETE.
-   Equality with the reference order: see TODO below.  This file states what already exists:
-   the reference order (Spec/GemVersion.v, written from rubygems/version.rb independently of
-   the Go code: canonical segments split at dots and digit/letter boundaries, '-' read as
-   '.pre.', trailing zero segments dropped, segments compared position by position with a
-   missing segment counting as 0, numbers as integers of any size, strings alphabetically, a
-   string below a number) with its laws and the assertions of RubyGems' own test-suite as
-   computed examples; and the C03-style facts about the LIBRARY's Compare that are part of
-   C13's wording (numeric tuples, a version with a letter group being a pre-release of the
-   version before it, in the hyphenated AND in the dotted spelling).
+(* C13 — RubyGems versions order as Gem::Version does.
+   Statements only; the proofs live in Eco/Gem/SpecFacts.v, Spec/GemVersionFacts.v and
+   Eco/Gem/VersionFacts.v.
 
-   Proofs live in Spec/GemVersionFacts.v and Eco/Gem/VersionFacts.v. *)
-(* TODO: gem_cmp_is_spec — to be added from Eco/Gem/SpecFacts.v
-   (with gem_accepts_spec_valid and the *_refuted witnesses outside its scope) *)
+   The reference is Spec/GemVersion.v, written from rubygems/version.rb independently of the Go
+   code: [gem_valid] is RubyGems' VERSION_PATTERN on the stripped text; the segments are those
+   of version.strip.gsub("-", ".pre.") scanned into digit and letter runs, trailing zero
+   segments dropped, compared position by position with a missing segment counting as 0,
+   numbers as integers of any size, strings alphabetically, a string below a number;
+   [spec_valid] = [gem_valid], [spec_cmp a b] = [Some (gem_cmp a b)] on valid texts.
+
+   Scope.  [in_scope s] (C13_scope_def spells it out): after trimming, the text is accepted
+   by the library's own pattern, has no upper-case letter (the library lower-cases, Gem::Version
+   is case-sensitive - the property does not claim case folding), no empty field between or
+   after hyphens (the library collapses "--" and drops a trailing "-", RubyGems reads each "-" as
+   ".pre."), and every number is below 2^63 (larger ones become TEXT segments in the library).
+   These four classes are exactly the complement of the scope (C13_scope_complement), each
+   holds a witness where the library deviates (Part D), and on the scope every RubyGems-valid
+   text is accepted unchanged and Compare IS Gem::Version#<=> (C13_gem_cmp_is_spec).
+   The first class also contains RubyGems-valid texts the library REJECTS (1.rc.1, 1.2a, 1.a1b:
+   C13_gem_accepts_refuted) - the property's "strings the gem ecosystem accepts" excludes them.
+
+   A  the reference: laws, segment rules, RubyGems' own assertions
+   B  the library against the reference, on the scope
+   C  clauses of the property proved directly on the library (C03-style)
+   D  outside the scope: the witnesses *)
 From Coq Require Import List NArith.
 From Verif.Base Require Import Bytes GoNum Ord.
-From Verif.Eco Require Import VLayer.
+From Verif.Eco Require Import VLayer Iface.
 From Verif.Spec Require GemVersion GemVersionFacts.
-From Verif.Eco.Gem Require Version VersionFacts.
+From Verif.Eco.Gem Require Version VersionFacts Entry SpecFacts.
 Import ListNotations.
 
 (* ====================================================================== *)
@@ -71,7 +83,56 @@ Qed.
 Print Assumptions C13_reference_examples.
 
 (* ====================================================================== *)
-(* B. the library's Compare: the clauses proved so far                     *)
+(* B. the library against the reference, on the scope                      *)
+(* ====================================================================== *)
+
+Theorem C13_scope_def : forall s : bytes,
+  Gem.SpecFacts.in_scope s =
+  (let t := trim_space s in
+   Gem.Version.pattern t
+   && forallb (fun c => negb (is_upper c)) t
+   && forallb (fun p : bytes => match p with [] => false | _ => true end) (split_c "-"%char t)
+   && forallb (fun x => match x with
+                        | GemVersion.SInt n => (n <? two63)%N
+                        | GemVersion.SStr _ => true
+                        end) (GemVersion.gem_segments s)).
+Proof. intros s. reflexivity. Qed.
+Print Assumptions C13_scope_def.
+
+(* the complement of the scope is exactly the union of four classes *)
+Theorem C13_scope_complement : forall s : bytes,
+  Gem.SpecFacts.in_scope s =
+  negb (negb (Gem.Version.pattern (trim_space s))
+        || existsb is_upper (trim_space s)
+        || negb (forallb (fun p : bytes => match p with [] => false | _ => true end)
+                         (split_c "-"%char (trim_space s)))
+        || negb (forallb Gem.SpecFacts.seg_small (GemVersion.gem_segments s))).
+Proof. exact Gem.SpecFacts.in_scope_complement. Qed.
+Print Assumptions C13_scope_complement.
+
+(* Compare is Gem::Version#<=> *)
+Theorem C13_gem_cmp_is_spec : forall a b : bytes,
+  Gem.SpecFacts.in_scope a = true -> Gem.SpecFacts.in_scope b = true ->
+  GemVersion.spec_valid a = true -> GemVersion.spec_valid b = true ->
+  v_cmp Gem.Entry.v a b = GemVersion.spec_cmp a b.
+Proof. exact Gem.SpecFacts.gem_cmp_is_spec. Qed.
+Print Assumptions C13_gem_cmp_is_spec.
+
+Theorem C13_gem_accepts_spec_valid : forall s : bytes,
+  Gem.SpecFacts.in_scope s = true -> GemVersion.spec_valid s = true ->
+  exists t, v_show Gem.Entry.v s = Some t.
+Proof. exact Gem.SpecFacts.gem_accepts_spec_valid. Qed.
+Print Assumptions C13_gem_accepts_spec_valid.
+
+(* and String() returns the text itself *)
+Theorem C13_gem_show_spec_valid : forall s : bytes,
+  Gem.SpecFacts.in_scope s = true -> GemVersion.spec_valid s = true ->
+  v_show Gem.Entry.v s = Some s.
+Proof. exact Gem.SpecFacts.gem_show_spec_valid. Qed.
+Print Assumptions C13_gem_show_spec_valid.
+
+(* ====================================================================== *)
+(* C. clauses proved directly on the library                               *)
 (* ====================================================================== *)
 
 (* [dots t] = the decimal numbers of t joined by "."; [small t] = every number below 2^63.
@@ -119,3 +180,73 @@ Theorem C13_gem_dot_marker_lt : forall (t : list N) (w d : list ascii),
     Gem.Version.cmp v1 v2 = Lt.
 Proof. exact Gem.VersionFacts.c03_dot_marker_lt. Qed.
 Print Assumptions C13_gem_dot_marker_lt.
+
+(* ====================================================================== *)
+(* D. outside the scope                                                    *)
+(* ====================================================================== *)
+
+(* upper case: the library folds case, Gem::Version does not *)
+Theorem C13_gem_cmp_refuted_upper :
+  GemVersion.spec_valid $"1.A" = true /\ GemVersion.spec_valid $"1.a" = true /\
+  Gem.SpecFacts.has_upper $"1.A" = true /\
+  v_cmp Gem.Entry.v $"1.A" $"1.a" = Some Eq /\ GemVersion.spec_cmp $"1.A" $"1.a" = Some Lt.
+Proof. exact Gem.SpecFacts.gem_cmp_is_spec_refuted_upper. Qed.
+Print Assumptions C13_gem_cmp_refuted_upper.
+
+(* "--" is collapsed by the library; every "-" is ".pre." for RubyGems *)
+Theorem C13_gem_cmp_refuted_double_dash :
+  GemVersion.spec_valid $"1--a" = true /\ GemVersion.spec_valid $"1-a" = true /\
+  Gem.SpecFacts.has_empty_dash_field $"1--a" = true /\
+  v_cmp Gem.Entry.v $"1--a" $"1-a" = Some Eq /\ GemVersion.spec_cmp $"1--a" $"1-a" = Some Gt.
+Proof. exact Gem.SpecFacts.gem_cmp_is_spec_refuted_double_dash. Qed.
+Print Assumptions C13_gem_cmp_refuted_double_dash.
+
+(* a trailing "-" is dropped by the library *)
+Theorem C13_gem_cmp_refuted_trailing_dash :
+  GemVersion.spec_valid $"1-a-" = true /\ Gem.SpecFacts.has_empty_dash_field $"1-a-" = true /\
+  v_cmp Gem.Entry.v $"1-a-" $"1-a" = Some Eq /\ GemVersion.spec_cmp $"1-a-" $"1-a" = Some Lt.
+Proof. exact Gem.SpecFacts.gem_cmp_is_spec_refuted_trailing_dash. Qed.
+Print Assumptions C13_gem_cmp_refuted_trailing_dash.
+
+(* a number of 2^63 or more becomes a text segment, hence a pre-release *)
+Theorem C13_gem_cmp_refuted_big_number :
+  GemVersion.spec_valid $"1.9223372036854775808" = true /\ GemVersion.spec_valid $"1.5" = true /\
+  Gem.SpecFacts.has_big_number $"1.9223372036854775808" = true /\
+  v_cmp Gem.Entry.v $"1.9223372036854775808" $"1.5" = Some Lt /\
+  GemVersion.spec_cmp $"1.9223372036854775808" $"1.5" = Some Gt.
+Proof. exact Gem.SpecFacts.gem_cmp_is_spec_refuted_big_number. Qed.
+Print Assumptions C13_gem_cmp_refuted_big_number.
+
+(* RubyGems-valid texts the library rejects: a number after a letter group, and alphanumeric
+   groups that are not letters-then-digits *)
+Theorem C13_gem_accepts_refuted :
+  GemVersion.spec_valid $"1.rc.1" = true /\ Gem.SpecFacts.go_rejects $"1.rc.1" = true /\
+  v_show Gem.Entry.v $"1.rc.1" = None /\
+  GemVersion.spec_valid $"1.2a" = true /\ Gem.SpecFacts.go_rejects $"1.2a" = true /\
+  v_show Gem.Entry.v $"1.2a" = None /\
+  GemVersion.spec_valid $"1.a1b" = true /\ Gem.SpecFacts.go_rejects $"1.a1b" = true /\
+  v_show Gem.Entry.v $"1.a1b" = None.
+Proof. exact Gem.SpecFacts.gem_accepts_spec_valid_refuted. Qed.
+Print Assumptions C13_gem_accepts_refuted.
+
+(* conversely the library accepts texts RubyGems rejects ("v" prefix, "+" build part) *)
+Theorem C13_gem_accepts_more :
+  GemVersion.spec_valid $"v1" = false /\ v_show Gem.Entry.v $"v1" = Some $"v1" /\
+  GemVersion.spec_valid $"1+1" = false /\ v_show Gem.Entry.v $"1+1" = Some $"1+1".
+Proof. exact Gem.SpecFacts.gem_accepts_more. Qed.
+Print Assumptions C13_gem_accepts_more.
+
+(* the class names used above *)
+Theorem C13_class_defs : forall s : bytes,
+  Gem.SpecFacts.has_upper s = existsb is_upper (trim_space s) /\
+  Gem.SpecFacts.has_empty_dash_field s =
+    negb (forallb (fun p : bytes => match p with [] => false | _ => true end)
+                  (split_c "-"%char (trim_space s))) /\
+  Gem.SpecFacts.has_big_number s =
+    negb (forallb (fun x => match x with
+                            | GemVersion.SInt n => (n <? two63)%N
+                            | GemVersion.SStr _ => true
+                            end) (GemVersion.gem_segments s)) /\
+  Gem.SpecFacts.go_rejects s = negb (Gem.Version.pattern (trim_space s)).
+Proof. intros s. repeat split; reflexivity. Qed.
+Print Assumptions C13_class_defs.
